@@ -160,6 +160,10 @@ Fixpoint run {S O : Type} (step : S -> O -> S * result) (s : S) (ops : list O)
 
 (** * The KV wrapper (kv.go, kv_key.go, iter.go) over any backend *)
 
+(** What the user's [Iter.Do] does: succeed on every entry, or return error
+    [e] (ErrCancel, a user error) on the first entry whose value is [v]. *)
+Inductive wdo := WAll | WStopAt (v : bytes) (e : err).
+
 Inductive uop :=
 | UAdd (k : key) (v : bytes)
 | UAddClass (k : key) (c : cls) (v : bytes)
@@ -176,10 +180,10 @@ Inductive uop :=
 | UMutate (k : key) (f : bytes -> mres)
 | UCount
 | UClear
-| UWalk
-| UWalkClass (c : cls)
-| UWalkPartial (off n : N) (desc : bool)
-| UWalkPartialClass (c : cls) (off n : N) (desc : bool).
+| UWalk (d : wdo)
+| UWalkClass (c : cls) (d : wdo)
+| UWalkPartial (off n : N) (desc : bool) (d : wdo)
+| UWalkPartialClass (c : cls) (off n : N) (desc : bool) (d : wdo).
 
 Section Wrapper.
   Variable maxlen : N.            (* MaxKeyLen of kv_key.go *)
@@ -199,8 +203,15 @@ Section Wrapper.
     | Some mk => cont mk
     end.
 
-  (** Iter.doWalk with a [Do] that always succeeds. *)
-  Definition do_walk : walkfn := fun _ _ v => if jv v then None else Some EDecode.
+  (** Iter.doWalk: decode the value, then call [Do]. *)
+  Definition do_walk (d : wdo) : walkfn :=
+    fun _ _ v =>
+      if jv v then
+        match d with
+        | WAll => None
+        | WStopAt sv e => if keqb v sv then Some e else None
+        end
+      else Some EDecode.
 
   (** [if err == ErrCancel { return nil }] *)
   Definition uncancel (r : result) : result :=
@@ -239,13 +250,13 @@ Section Wrapper.
                uncancel)
     | UCount => bstep s BCount
     | UClear => bstep s BClear
-    | UWalk => post (bstep s (BWalk do_walk)) uncancel
-    | UWalkClass c => post (bstep s (BWalkClass c do_walk)) uncancel
-    | UWalkPartial off n desc =>
-        if ordered then post (bstep s (BWalkPartial off n desc do_walk)) uncancel
+    | UWalk d => post (bstep s (BWalk (do_walk d))) uncancel
+    | UWalkClass c d => post (bstep s (BWalkClass c (do_walk d))) uncancel
+    | UWalkPartial off n desc d =>
+        if ordered then post (bstep s (BWalkPartial off n desc (do_walk d))) uncancel
         else (s, RErr EUnordered)
-    | UWalkPartialClass c off n desc =>
-        if ordered then post (bstep s (BWalkPartialClass c off n desc do_walk)) uncancel
+    | UWalkPartialClass c off n desc d =>
+        if ordered then post (bstep s (BWalkPartialClass c off n desc (do_walk d))) uncancel
         else (s, RErr EUnordered)
     end.
 End Wrapper.
